@@ -13,7 +13,7 @@ import (
 func init() {
 	vfRegister(&vfProp{
 		id:       "C14",
-		classes:  []string{"os", "os-alloc", "rs", "rs-alloc", "rs-park", "rs-park", "os-halfclose", "rs-halfclose"},
+		classes:  []string{"os", "os-alloc", "rs", "rs-alloc", "rs-park", "rs-park", "os-halfclose", "rs-halfclose", "os-stale", "rs-stale", "rs-wfail"},
 		gen:      c14Gen,
 		exec:     c14Exec,
 		valid:    c14Valid,
@@ -44,11 +44,28 @@ func c14Gen(class string, seed uint64, tier string) *vfScenario {
 		sc.Cfg["kind"], sc.Cfg["halfclose"] = 1, 1
 		sc.Cfg["parkdata"] = int64(rng.IntN(2))
 		sc.Cfg["alloc"] = int64(rng.IntN(2))
+	case "os-stale":
+		// one handle's request is followed by a long run of traffic on other handles before its CLOSE
+		sc.Cfg["kind"], sc.Cfg["stale"] = 0, 1
+		sc.Cfg["alloc"] = int64(rng.IntN(2))
+	case "rs-stale":
+		sc.Cfg["kind"], sc.Cfg["stale"], sc.Cfg["parkdata"] = 1, 1, 1
+		sc.Cfg["alloc"] = int64(rng.IntN(2))
+	case "rs-wfail":
+		// the handler fails one WriteAt of the burst: everything else must go on as usual
+		sc.Cfg["kind"] = 1
+		sc.Cfg["parkdata"] = int64(rng.IntN(2))
+		sc.Cfg["alloc"] = int64(rng.IntN(2))
+		sc.Faults = []vfFault{{K: "wfail", At: int64(rng.IntN(6))}}
 	}
 	sc.Cfg["hopt"] = 1
 	sc.Cfg["sites"] = int64(1 + rng.IntN(3))
 	ops := []vfOp{{K: "init", A: 3}}
 	nh := 1 + rng.IntN(3)
+	stale := sc.Cfg["stale"] != 0
+	if stale {
+		nh = 2 + rng.IntN(2)
+	}
 	files := []string{"f0", "f1", "d/a"}
 	slot := 0
 	nextOff := map[int]int{} // per file index: next free write region
@@ -75,8 +92,18 @@ func c14Gen(class string, seed uint64, tier string) *vfScenario {
 		}
 		var burst []vfOp
 		perSlot := map[int]int{}
+		if stale {
+			depth = []int{16, 17, 18, 21, 25, 33}[rng.IntN(6)]
+		}
 		for i := 0; i < depth; i++ {
 			k := rng.IntN(len(slots))
+			if stale {
+				// the first request goes to handle 0, all the others elsewhere
+				k = 0
+				if i > 0 {
+					k = 1 + rng.IntN(len(slots)-1)
+				}
+			}
 			s, fi := slots[k], fidx[k]
 			perSlot[s]++
 			if rng.IntN(2) == 0 {
@@ -100,6 +127,9 @@ func c14Gen(class string, seed uint64, tier string) *vfScenario {
 				}
 			}
 			pos := last + 1 + rng.IntN(len(burst)-last)
+			if stale && s == slots[0] {
+				pos = len(burst) - rng.IntN(2) // its CLOSE comes after (nearly) all the other traffic
+			}
 			burst = append(burst[:pos:pos], append([]vfOp{{K: "close", H: s}}, burst[pos:]...)...)
 		}
 		ops = append(ops, burst...)
@@ -116,9 +146,25 @@ func c14Exec(r *vfRun) {
 	s := vfStartSession(r, sc.Ops)
 	defer s.cleanup()
 	sim := s.sim
+	for _, f := range sc.Faults {
+		if f.K == "wfail" && s.fs != nil {
+			s.fs.planFault("WriteAt", int(f.At), c10Opaque)
+		}
+	}
 	sim.run(nil)
 	if sim.failed() {
 		return
+	}
+	// writes the handler was told to fail: (file, offset)
+	failedWrite := map[string]bool{}
+	if s.fs != nil {
+		s.fs.mu.Lock()
+		for _, c := range s.fs.calls {
+			if c.Method == "WriteAt" && c.Err != "" {
+				failedWrite[fmt.Sprintf("%s@%d", c.Filepath, c.Off)] = true
+			}
+		}
+		s.fs.mu.Unlock()
 	}
 	c02CheckReplies(r, s.wc, true)
 	if sim.failed() {
@@ -169,6 +215,15 @@ func c14Exec(r *vfRun) {
 				return
 			}
 		case "write":
+			if failedWrite[fmt.Sprintf("/%s@%d", slotFile[op.H], op.Off)] {
+				// the handler refused this one: its failure must come back, nothing is stored, the rest is unaffected
+				if p.Type != wtStatus || p.Code != wsFailure {
+					r.fail("C14/pipelined-request-failed", "write-refused", "WRITE %v was refused by the handler but answered %v", q, p)
+					return
+				}
+				sim.count("fault.handler.writeat")
+				continue
+			}
 			if p.Type != wtStatus || p.Code != wsOK {
 				r.fail("C14/pipelined-request-failed", "write", "WRITE %v sent before the CLOSE of its handle was answered %v, want OK", q, p)
 				return
